@@ -335,12 +335,14 @@ func cmdCheck(args []string) int {
 	// group failing obligations by clause: function / kind / label without case and return-point counters
 	groupOf := func(ob *Obligation) string {
 		n := stableName(ob.Name)
-		if i := strings.Index(n, ".case"); i >= 0 {
-			j := i + 5
-			for j < len(n) && n[j] >= '0' && n[j] <= '9' {
-				j++
+		for _, marker := range []string{".case", ".part"} {
+			if i := strings.Index(n, marker); i >= 0 {
+				j := i + len(marker)
+				for j < len(n) && n[j] >= '0' && n[j] <= '9' {
+					j++
+				}
+				n = n[:i] + n[j:]
 			}
-			n = n[:i] + n[j:]
 		}
 		return n
 	}
